@@ -52,7 +52,7 @@ func RaceWorkload(seed int64, blocks, worlds int) (map[string]int64, error) {
 		wg.Add(1)
 		go func(i int) {
 			defer wg.Done()
-			traces[i], errs[i] = replayOn(labs[i], st)
+			traces[i], errs[i] = replayOn(labs[i], st, int64(i%2)*int64(1000+i))
 			atomic.AddInt64(&nBlocks, int64(len(st.Blocks)))
 		}(i)
 	}
